@@ -325,6 +325,21 @@ class Probe:
 
     # -- driving --
     @contextlib.contextmanager
+    def _env(self):
+        """cfg['env']: process-wide settings a user may legitimately have in force while the sampler runs."""
+        import warnings
+        e = self.cfg.get("env")
+        with contextlib.ExitStack() as st:
+            if e == "errstate-raise":
+                st.enter_context(np.errstate(all="raise"))
+            elif e == "warnings-error":
+                st.enter_context(warnings.catch_warnings())
+                warnings.simplefilter("error")
+            elif e == "printoptions":
+                st.enter_context(np.printoptions(precision=1, threshold=3, suppress=True))
+            yield
+
+    @contextlib.contextmanager
     def _stderr(self):
         """cfg['stderr']=='encodedfile': an un-picklable text stream (what pytest / notebook front-ends install)."""
         import sys, io
@@ -354,7 +369,7 @@ class Probe:
         prev = _ACTIVE
         _ACTIVE = self
         try:
-            with env.quiet(), self._stderr(), instrumented(), self.tape, self._mount():
+            with env.quiet(), self._stderr(), instrumented(), self.tape, self._mount(), self._env():
                 args = dict(n_total=self.cfg["n_total"], progress=bool(self.cfg.get("progress", False)))
                 if self.cfg.get("save_every") is not None:
                     args["save_every"] = self.cfg["save_every"]
